@@ -29,7 +29,7 @@
     C02_exact: pairs in which SQLite's Normalize rewrites something (autoindex names,
     re-symbolled foreign keys), and table attributes of MySQL / PostgreSQL. *)
 From Coq Require Import List NArith Bool Arith Permutation.
-From Atlas Require Import Base.Bytes Diff.Schema Diff.DiffModel Diff.DiffSqlite Diff.DiffDialects Diff.DiffProofs Diff.DiffSqliteProofs Diff.DiffDialectsProofs Diff.DiffSqliteCopy Diff.DiffMysqlVariants Diff.DiffMysqlVariantsProofs Diff.DiffUnnamedProofs Diff.DiffSqliteNumFk Diff.DiffRealm Diff.DiffRealmProofs Diff.DiffSqliteExact Diff.DiffTableAttrs Diff.DiffTableAttrsProofs Diff.DiffCheckFlags Diff.DiffCheckFlagsProofs.
+From Atlas Require Import Base.Bytes Diff.Schema Diff.DiffModel Diff.DiffSqlite Diff.DiffDialects Diff.DiffProofs Diff.DiffSqliteProofs Diff.DiffDialectsProofs Diff.DiffSqliteCopy Diff.DiffMysqlVariants Diff.DiffMysqlVariantsProofs Diff.DiffUnnamedProofs Diff.DiffSqliteNumFk Diff.DiffRealm Diff.DiffRealmProofs Diff.DiffSqliteExact Diff.DiffTableAttrs Diff.DiffTableAttrsProofs Diff.DiffCheckFlags Diff.DiffCheckFlagsProofs Diff.DiffViews Diff.DiffViewsProofs.
 Import ListNotations.
 
 (** 1a. Generic: for every driver whose callbacks report nothing on identical
@@ -914,6 +914,35 @@ Theorem C02_exact_table_checks :
   (forall v from to, mv_check v = false -> xk_checks to <> [] -> mysql_checks_x v from to = None).
 Proof. exact (conj table_diff_xk_exact mysql_checks_x_no_support). Qed.
 
+(** 12. Views (DiffViews.v).  12a. The view loops of schemaDiff are exact on every script of
+    views keyed by kind + name (a view and a materialized view of one name are different
+    objects): one DropView per dropped view, viewDiff's answer per kept view, one AddView per
+    added view, each through the skip filter, in any order of the desired list. *)
+Theorem C02_exact_views :
+  forall (D : DiffDriver) (vskip : vtag -> bool) from to ps adds,
+  from = map fst ps -> script_ok vkey ps adds -> Permutation to (kept ps ++ adds) ->
+  exists adds', Permutation adds adds' /\
+    views_diff D vskip from to =
+    vw_expected D vskip ps ++ flat_map (fun v => add_or_skip_v vskip [AddView (v_name v) (v_mat v)]) adds'.
+Proof. exact views_diff_exact. Qed.
+
+(** 12b. Views diffed with themselves (distinct kind + name, distinct column and index names,
+    index parts well formed): nothing, for every driver with the reflexivity laws. *)
+Theorem C02_views_self_empty :
+  forall (D : DiffDriver) (vskip : vtag -> bool) l,
+  refl_laws D -> NoDup (map vkey l) -> (forall v, In v l -> wf_view v) -> views_diff D vskip l l = [].
+Proof. exact views_diff_self. Qed.
+
+(** 12c. BodyDefChanged: two definitions are the same exactly when they are equal, or equal after
+    trimming blanks / line ends / ';' at both ends, or equal after every line was trimmed and the
+    non-empty lines were joined by single blanks. *)
+Theorem C02_view_def_changed :
+  forall a b,
+  body_def_changed a b = false <->
+  a = b \/ trim_view_extra a = trim_view_extra b \/
+  noident (trim_view_extra a) = noident (trim_view_extra b).
+Proof. exact body_def_changed_spec. Qed.
+
 (** * Non-vacuity: concrete inputs (vm_compute) *)
 Definition x_a : column := mkColumn [97]%N 2 [105;110;116]%N false None None None.
 Definition x_b : column := mkColumn [98]%N 3 [116;101;120;116]%N true (Some (DLit [39;120;39]%N)) None None.
@@ -1174,6 +1203,23 @@ Example C02_ex_check_flags :
                        (mkTableXK (mkTableX x_t None None None None None false None) [x_kx [107;49]%N [97;62;48]%N true]) = None.
 Proof. split; vm_compute; reflexivity. Qed.
 
+(* round 5: views.  "SELECT a\n  FROM t;" vs "SELECT a FROM t" is no difference; vs "SELECT  a FROM t" it is *)
+Definition x_def1 : str := [83;69;76;69;67;84;32;97;10;32;32;70;82;79;77;32;116;59]%N.
+Definition x_def2 : str := [83;69;76;69;67;84;32;97;32;70;82;79;77;32;116]%N.
+Definition x_def3 : str := [83;69;76;69;67;84;32;32;97;32;70;82;79;77;32;116]%N.
+Definition x_view (d : str) (m : bool) (c : option str) : view := mkView [118]%N d m [([97]%N, c)] [x_i1].
+Example C02_ex_views :
+  body_def_changed x_def1 x_def2 = false /\ body_def_changed x_def2 x_def3 = true /\
+  views_diff sqlite_driver (fun _ => false) [x_view x_def1 false None] [x_view x_def2 false None] = [] /\
+  views_diff sqlite_driver (fun _ => false) [x_view x_def1 false None] [x_view x_def3 false (Some [99]%N)] =
+    [ModifyView [118]%N false [ModifyColumn [97]%N ChangeComment]] /\
+  views_diff sqlite_driver (fun _ => false) [x_view x_def1 false None] [x_view x_def3 false None] = [ModifyView [118]%N false []] /\
+  views_diff sqlite_driver (fun _ => false) [x_view x_def1 false None] [x_view x_def1 true None] =
+    [DropView [118]%N false; AddView [118]%N true] /\
+  views_diff sqlite_driver (fun t => match t with VtTag TgModifyColumn => true | _ => false end)
+    [x_view x_def1 false None] [x_view x_def1 false (Some [99]%N)] = [].
+Proof. repeat split; vm_compute; reflexivity. Qed.
+
 Print Assumptions C02_self_empty.
 Print Assumptions C02_copy_empty.
 Print Assumptions C02_perm_empty.
@@ -1245,3 +1291,6 @@ Print Assumptions C02_self_empty_tx_dialects.
 Print Assumptions C02_exact_checks_flags.
 Print Assumptions C02_check_flag_alone.
 Print Assumptions C02_exact_table_checks.
+Print Assumptions C02_exact_views.
+Print Assumptions C02_views_self_empty.
+Print Assumptions C02_view_def_changed.
